@@ -7,7 +7,6 @@ import (
 	"strings"
 	"testing"
 
-	"github.com/jub0bs/cors"
 	"github.com/jub0bs/cors/internal/zzverif/vlib"
 )
 
@@ -21,7 +20,8 @@ type c18Case struct {
 	Kind  string `json:"request_kind"` // preflight | actual | noncors
 	Field string `json:"field"`        // origin-length | acrm-length | acrh-element-length | acrh-elements | acrh-lines | acrh-empty-elements
 	Size  int    `json:"size"`
-	Base  int    `json:"base_size"` // smallest size of the ladder with the same response fingerprint (0: none)
+	Base  int    `json:"base_size"`       // smallest size of the ladder with the same response fingerprint (0: none)
+	Route int    `json:"route,omitempty"` // construction route (suite.go)
 }
 
 const c18MaxAllocs = 8
@@ -127,17 +127,16 @@ func c18Measure(h http.Handler, r vlib.Req) c18Cell {
 	return c18Cell{a, f}
 }
 
-func c18Build(l CfgLit, debug bool) (http.Handler, error) {
-	m, err := cors.NewMiddleware(l.Config())
+func c18Build(l CfgLit, debug bool, route int) (http.Handler, error) {
+	bm, err := buildViaH(route, l, debug)
 	if err != nil {
 		return nil, err
 	}
-	m.SetDebug(debug)
-	return m.Wrap(http.HandlerFunc(func(http.ResponseWriter, *http.Request) {})), nil
+	return bm.wrap(http.HandlerFunc(func(http.ResponseWriter, *http.Request) {})), nil
 }
 
 func c18Judge(k c18Case) *vlib.Failure {
-	h, err := c18Build(k.Cfg, k.Debug)
+	h, err := c18Build(k.Cfg, k.Debug, k.Route)
 	if err != nil {
 		return vlib.Failf("configuration of the C18 alphabet rejected: %v", err)
 	}
@@ -196,50 +195,52 @@ func checkC18(c *vlib.Ctx) (string, string) {
 	}
 	maxSeen := 0.0
 	hist := map[string]int{}
-	for _, l := range cfgs {
-		for _, dbg := range []bool{false, true} {
-			h, err := c18Build(l, dbg)
-			if err != nil {
-				ck.Report(c18Case{Cfg: l}, vlib.Failf("configuration of the C18 alphabet rejected: %v", err))
-				return levelMC, rule
-			}
-			for _, kind := range []string{"preflight", "actual", "noncors"} {
-				for _, f := range fields {
-					if kind != "preflight" && !strings.HasPrefix(f.name, "origin-length") && f.name != "acrh-lines" {
-						continue // ACRM/ACRH are only looked at on preflights; keep two fields as a control
-					}
-					baseOf := map[string]int{} // fingerprint -> smallest size
-					baseAllocs := map[string]float64{}
-					for _, size := range f.ladder {
-						cell := c18Measure(h, c18Request(kind, f.name, size))
-						c.Evaluations.Add(1)
-						c.States.Add(1)
-						c.Transitions.Add(11)
-						hist[fmt.Sprint(cell.allocs)]++
-						if strings.Contains(cell.finger, "Access-Control-Allow-Origin") {
-							c.Nontrivial.Add(1)
+	for li, l := range cfgs {
+		for di, dbg := range []bool{false, true} {
+			for _, route := range []int{0, 2 + (li+di)%8} { // a fresh middleware and one other construction route per cell
+				h, err := c18Build(l, dbg, route)
+				if err != nil {
+					ck.Report(c18Case{Cfg: l, Route: route}, vlib.Failf("configuration of the C18 alphabet rejected: %v", err))
+					return levelMC, rule
+				}
+				for _, kind := range []string{"preflight", "actual", "noncors"} {
+					for _, f := range fields {
+						if kind != "preflight" && !strings.HasPrefix(f.name, "origin-length") && f.name != "acrh-lines" {
+							continue // ACRM/ACRH are only looked at on preflights; keep two fields as a control
 						}
-						maxSeen = max(maxSeen, cell.allocs)
-						b, seen := baseOf[cell.finger]
-						if !seen {
-							baseOf[cell.finger], baseAllocs[cell.finger] = size, cell.allocs
-							b = 0
-						}
-						k := c18Case{l, dbg, kind, f.name, size, b}
-						if cell.allocs > c18MaxAllocs || seen && cell.allocs > baseAllocs[cell.finger] {
-							if jf := vlib.Guard(func() *vlib.Failure { return c18Judge(k) }); jf != nil {
-								ck.Report(k, jf)
-							} else {
-								vlib.HarnessError("grid and judge disagree on %+v (%v allocs, base %v)", k, cell.allocs, baseAllocs[cell.finger])
+						baseOf := map[string]int{} // fingerprint -> smallest size
+						baseAllocs := map[string]float64{}
+						for _, size := range f.ladder {
+							cell := c18Measure(h, c18Request(kind, f.name, size))
+							c.Evaluations.Add(1)
+							c.States.Add(1)
+							c.Transitions.Add(11)
+							hist[fmt.Sprint(cell.allocs)]++
+							if strings.Contains(cell.finger, "Access-Control-Allow-Origin") {
+								c.Nontrivial.Add(1)
+							}
+							maxSeen = max(maxSeen, cell.allocs)
+							b, seen := baseOf[cell.finger]
+							if !seen {
+								baseOf[cell.finger], baseAllocs[cell.finger] = size, cell.allocs
+								b = 0
+							}
+							k := c18Case{l, dbg, kind, f.name, size, b, route}
+							if cell.allocs > c18MaxAllocs || seen && cell.allocs > baseAllocs[cell.finger] {
+								if jf := vlib.Guard(func() *vlib.Failure { return c18Judge(k) }); jf != nil {
+									ck.Report(k, jf)
+								} else {
+									vlib.HarnessError("grid and judge disagree on %+v (%v allocs, base %v)", k, cell.allocs, baseAllocs[cell.finger])
+								}
+							}
+							if size == 327 {
+								c.Sample(map[string]any{"case": k, "allocs": cell.allocs, "response": cell.finger})
 							}
 						}
-						if size == 327 {
-							c.Sample(map[string]any{"case": k, "allocs": cell.allocs, "response": cell.finger})
-						}
 					}
-				}
-				if c.CheckDeadline("C18 grid") {
-					return levelMC, rule
+					if c.CheckDeadline("C18 grid") {
+						return levelMC, rule
+					}
 				}
 			}
 		}
